@@ -789,6 +789,57 @@ where
     total
 }
 
+/// "Returned buffer" histories: `produce(a)` makes a library call that returns an owned String
+/// r; the caller clears r, refills it with another string b of exactly the old byte length and
+/// passes it back in (`f(&r)`), for every a of `strings` and every b of `strings` of that length.
+/// This is what "the argument is the buffer I handed out last time, so I know what is in it"
+/// gets wrong.
+pub fn returned_buffer_histories<P, F>(strings: &[String], produce: P, f: F) -> Stats
+where
+    P: Fn(&str) -> Option<String> + Sync,
+    F: Fn(&str, &mut Stats) + Sync,
+{
+    let mut by_len: BTreeMap<usize, Vec<&String>> = BTreeMap::new();
+    for s in strings {
+        by_len.entry(s.len()).or_default().push(s);
+    }
+    let shards: Vec<Stats> = strings
+        .par_chunks(16)
+        .map(|chunk| {
+            let mut st = Stats::default();
+            for a in chunk {
+                let n = match produce(a) {
+                    Some(r) => r.len(),
+                    None => continue,
+                };
+                let group = match by_len.get(&n) {
+                    Some(g) => g,
+                    None => continue,
+                };
+                for b in group {
+                    if let Some(mut r) = produce(a) {
+                        if r.len() != n || r == **b {
+                            continue;
+                        }
+                        st.states += 1;
+                        st.transitions += 2;
+                        r.clear();
+                        r.push_str(b);
+                        f(&r, &mut st);
+                    }
+                }
+            }
+            st.count("out:returned-buffer-history");
+            st
+        })
+        .collect();
+    let mut total = Stats::default();
+    for s in shards {
+        total.merge(s);
+    }
+    total
+}
+
 /// all strings of length 1..=n over `sigma`
 pub fn all_strings(sigma: &[char], n: usize) -> Vec<String> {
     let mut out: Vec<String> = Vec::new();
@@ -828,6 +879,12 @@ where
                     crate::watch::with_allowance(30 + 30 * (s.len() as u64 >> 20), || f(s, &mut st));
                 } else {
                     f(s, &mut st);
+                    // the same long label once more, right away on the same thread: the answer to
+                    // a call must not depend on the call before it being the same one ("this is what
+                    // I produced / saw last time")
+                    if s.len() >= 24 {
+                        f(s, &mut st);
+                    }
                 }
             }
             st
@@ -858,6 +915,9 @@ where
                     let p = Placed::new(s, k);
                     PLACE.with(|c| c.set(Some(k)));
                     f(p.as_str(), &mut st);
+                    if s.len() >= 24 && k == 0 {
+                        f(p.as_str(), &mut st);
+                    }
                     PLACE.with(|c| c.set(None));
                 }
             }
